@@ -4,13 +4,17 @@ package interp
 // interpreter and reports whether the behaviour the obligation guards against is observed.
 
 import (
+	"sort"
 	"strings"
+	"sync"
 	"runtime"
 	"context"
 	"fmt"
 	"reflect"
 	"sync/atomic"
 	"time"
+
+	"github.com/traefik/yaegi/stdlib"
 )
 
 type verifScenario struct {
@@ -151,5 +155,82 @@ func init() {
 	verifProtocolScenarios = append(verifProtocolScenarios,
 		verifScenario{"C13/stdlib/default-table/no-unwrapped-logger[log.Default]", logger(`log.Default()`)},
 		verifScenario{"C13/stdlib/default-table/no-unwrapped-logger[log/slog.NewLogLogger]", logger(`slog.NewLogLogger(slog.Default().Handler(), slog.LevelInfo)`)},
+	)
+}
+
+func init() {
+	// C10: what an earlier evaluation defined still works after a cancelled one
+	verifProtocolScenarios = append(verifProtocolScenarios,
+		verifScenario{"C10/interp.Interpreter.stop/*", func() (bool, string) {
+			// after a cancellation, a plain Eval ranges over a closed buffered channel: both values must be seen
+			i := verifNewInterp()
+			verifCancelledEval(i, `for { }`, 20*time.Millisecond)
+			bad := 0
+			var last interface{}
+			for k := 0; k < 20; k++ {
+				v, err := i.Eval(fmt.Sprintf(`e%d := make(chan int, 2); e%d <- 1; e%d <- 2; close(e%d); n%d := 0; for v := range e%d { n%d += v }; n%d`, k, k, k, k, k, k, k, k))
+				if err != nil || !v.IsValid() || fmt.Sprint(v) != "3" {
+					bad++
+					last = fmt.Sprint(v, err)
+				}
+			}
+			return bad > 0, fmt.Sprintf("%d of 20 plain evaluations after a cancelled one did not sum the channel to 3 (last: %v)", bad, last)
+		}},
+		verifScenario{"C10/interp.recv/*", func() (bool, string) {
+			// a receive into a global, cancelled while blocked: the global keeps its value
+			i := verifNewInterp()
+			if _, err := i.Eval(`x := 5; c := make(chan int)`); err != nil {
+				return false, err.Error()
+			}
+			verifCancelledEval(i, `x = <-c`, 50*time.Millisecond)
+			time.Sleep(100 * time.Millisecond)
+			v, err := func() (v reflect.Value, err error) {
+				defer func() {
+					if r := recover(); r != nil {
+						err = fmt.Errorf("panic: %v", r)
+					}
+				}()
+				return i.Eval(`x + 1`)
+			}()
+			return err != nil || !v.IsValid() || fmt.Sprint(v) != "6", fmt.Sprintf("x + 1 after the cancelled receive: %v (err %v), want 6", v, err)
+		}},
+	)
+}
+
+func init() {
+	// C08: what a goroutine is started with is fixed at the go statement
+	goArgs := func() (bool, string) {
+		var mu sync.Mutex
+		var got []int
+		i := New(Options{})
+		if err := i.Use(Exports{"host/host": {"Rec": reflect.ValueOf(func(v int, done func()) { mu.Lock(); got = append(got, v); mu.Unlock(); done() })}}); err != nil {
+			return false, err.Error()
+		}
+		i.Use(stdlib.Symbols)
+		_, err := i.Eval(`package main
+import ("host"; "sync")
+func main() { var wg sync.WaitGroup; for k := 0; k < 4; k++ { wg.Add(1); go host.Rec(k*10, wg.Done) }; wg.Wait() }`)
+		sort.Ints(got)
+		return err != nil || fmt.Sprint(got) != "[0 10 20 30]", fmt.Sprintf("the host function received %v (err %v), compiled Go: [0 10 20 30]", got, err)
+	}
+	recvBinding := func() (bool, string) {
+		out, err := verifOutput(`package main
+import "sync"
+type W struct{ n int }
+func (w W) run(wg *sync.WaitGroup, out []int) { out[w.n] = w.n + 100; wg.Done() }
+func main() {
+	var wg sync.WaitGroup
+	out := make([]int, 4)
+	ws := []W{{0}, {1}, {2}, {3}}
+	for _, w := range ws { wg.Add(1); go w.run(&wg, out) }
+	wg.Wait()
+	println(out[0], out[1], out[2], out[3])
+}`)
+		return err != nil || out != "100 101 102 103\n", fmt.Sprintf("output %q (err %v), compiled Go prints \"100 101 102 103\\n\"", out, err)
+	}
+	verifProtocolScenarios = append(verifProtocolScenarios,
+		verifScenario{"C08/interp.callBin/go:args-copied*", goArgs},
+		verifScenario{"C08/interp.genFunctionWrapper/calls:MakeFunc/*", recvBinding},
+		verifScenario{"C08/interp.genFunctionWrapper/calls:runCfg/pre:apply-guard*", recvBinding},
 	)
 }
